@@ -213,7 +213,8 @@ def gen_cases(ctx):
             remaining -= 1
         cases.append({"kind": "star", "lens": lens, "sched": sched, "seed": rng.randrange(10 ** 9),
                       "cls": rng.choice(["state", "operator", "network"]),
-                      "prefix": rng.choice(["node", "c"]), "center": rng.choice(["central", "mid"])})
+                      "prefix": rng.choice(["node", "c"]), "center": rng.choice(["central", "mid"]),
+                      "legperm": (len(lens) > 1 and rng.random() < 0.4)})
     # arbitrary (mostly invalid) call sequences: library and model must accept / reject alike
     for _ in range(ctx.n(80, 800)):
         dimc = [2] if rng.random() < 0.7 else [1, 2]
@@ -384,6 +385,8 @@ def model_lines(case):
         return [f"C19 grid {case['rows']} {case['cols']}"]
     if k == "starconst":
         return [f"C19 starconst {case['d']} {case['L']} {case['C']}"]
+    if k == "star" and case.get("legperm"):
+        return []           # explicit parent legs: judged by the dense oracle only (the model has default legs)
     if k == "star":
         sh = _star_shapes(case)
         pos = [0] * len(case["lens"])
@@ -761,8 +764,13 @@ def _star_spec(case):
     if total > 20000:
         for k in opens:
             opens[k] = [1 for _ in opens[k]]
-    ct = gen.rand_tensor(nprng, [bond[(c, 0)] for c in range(C)] + opens[center])
-    spec[center] = (ct, [("b", c, 0) for c in range(C)] + [("o", center, k) for k in range(len(opens[center]))])
+    border = list(range(C))
+    if case.get("legperm"):
+        # the chains are attached to explicitly named legs of the centre (argument parent_leg): the centre tensor
+        # carries its bond legs in a shuffled order
+        border = [int(x) for x in np.random.default_rng(case["seed"] + 5).permutation(C)]
+    ct = gen.rand_tensor(nprng, [bond[(c, 0)] for c in border] + opens[center])
+    spec[center] = (ct, [("b", c, 0) for c in border] + [("o", center, k) for k in range(len(opens[center]))])
     shapes["center"] = list(ct.shape)
     for c in range(C):
         for j in range(lens[c]):
@@ -789,8 +797,16 @@ def _case_star(ctx, case, model_out):
         st = cls(central_node_identifier=center, non_center_prefix=prefix)
         st.add_center_node(spec[center][0].copy())
         pos = [0] * C
+        rem = [lab for lab in spec[center][1]]          # centre legs not yet attached, in current leg order
         for c in sched:
-            st.add_chain_node(spec[f"{prefix}{c}_{pos[c]}"][0].copy(), c)
+            if pos[c] == 0 and case.get("legperm"):
+                r = rem.index(("b", c, 0))
+                rem.pop(r)
+                # c chains are attached already (legs 0..c-1), the wanted leg is the r-th remaining one
+                st.add_chain_node(spec[f"{prefix}{c}_{pos[c]}"][0].copy(), c, parent_leg=c + r)
+                ctx.tally("star_explicit_parent_leg", "default leg" if r == 0 else "other leg")
+            else:
+                st.add_chain_node(spec[f"{prefix}{c}_{pos[c]}"][0].copy(), c)
             pos[c] += 1
     except Exception as e:  # noqa: BLE001
         if model_out and model_out[0] != "none":
@@ -1243,7 +1259,11 @@ def _case_gridpairs(ctx, case, model_out):
 
 def _check_pairs(ctx, case, pairs, prefix, rows, cols, model_line):
     impl = ",".join(f"{a[len(prefix):]}-{b[len(prefix):]}" for a, b in pairs)
-    if model_line is not None and impl != model_line:
+    def canon(line):
+        # the property fixes WHICH pairs are listed (each adjacent pair once), not their order in the list nor the
+        # orientation inside a pair: both sides are compared as sorted lists of sorted pairs (multiplicity kept)
+        return sorted(tuple(sorted(t.split("-"))) for t in line.split(",") if t)
+    if model_line is not None and canon(impl) != canon(model_line):
         ctx.corr_fail(case, f"grid {rows}x{cols}: pair list impl={impl[:200]} model={model_line[:200]}")
     # oracle: every adjacent pair exactly once (as an unordered pair), nothing else
     want = set()
